@@ -16,8 +16,9 @@
 (*   Return    finite, asym (max|X - X^T| / max|X| as decimal, rounded up; judged            *)
 (*             against the rounding slack of the ridge actually inside X), padnz            *)
 (*             (non-zero entries of X in padding rows/columns), xzero, figzero              *)
-(*   Gate      accepted (fig < 0.1 in float32), meas: for every ridge base and escalation    *)
-(*             exponent the residual max|X^p (A + dI) - I| MEASURED in float64 on the        *)
+(*   Gate      accepted (fig < 0.1 in float32), pi (premise PI below holds), meas: for      *)
+(*             every ridge base and escalation exponent the residual                          *)
+(*             max|X^p (A + dI) - I| MEASURED in float64 on the                               *)
 (*             unpadded block, minimised over the interval of d the reports stand for,       *)
 (*             decimal rounded UP ([-1,0] = not finite).                                     *)
 (* TLC - not the harness - picks the entry meas[base][kref + 1] that belongs to the ridge     *)
@@ -25,10 +26,12 @@
 (* the slack from the case's spectrum and that ridge, and evaluates Honest.  All invariants   *)
 (* of InvRoot are evaluated on every state of every accepted prefix.                          *)
 (*                                                                                           *)
-(* Assumption PI (eigh does not report its estimate): on the lattice spectra (eigenvalue      *)
-(* ratios 1 or <= 1/10) the power iteration, which stops at increments <= 1e-6, returns        *)
-(* lambda_hat in [lambda_max (1 - 1e-4), lambda_max] when lambda_max >= 1; for lambda_max      *)
-(* <= 1e-6 the floor 1e-6 is what scales the ridge.                                            *)
+(* Premise PI (eigh does not report its estimate): on the lattice spectra (eigenvalue ratios   *)
+(* 1 or <= 1/10) the power iteration, which stops at increments <= 1e-6, returns lambda_hat    *)
+(* in [lambda_max (1 - 1e-4), lambda_max] when lambda_max >= 1; for lambda_max <= 1e-6 the      *)
+(* floor 1e-6 is what scales the ridge.  The worker checks the premise per case with the       *)
+(* library's own power_iteration (Gate.pi); where it fails (start vector almost orthogonal to  *)
+(* the top eigenvector) the numerical clause is not evaluated for that eigh case.              *)
 EXTENDS InvRoot, Json, IOUtils
 Traces == JsonDeserialize(IOEnv.TRACE_FILE)
 VARIABLES tid, l, bad
@@ -121,7 +124,7 @@ Verdict(e) ==
      ELSE "ok")
   ELSE IF e.a = "Gate" THEN
     (IF e.accepted # (figcls \in {"below", "zero"}) THEN "gate_disagrees_with_figure_class"
-     ELSE IF case.dt = "f64" /\ figcls = "below" THEN
+     ELSE IF case.dt = "f64" /\ figcls = "below" /\ (case.method = "eigh" /\ base = "rel_lam" => e.pi) THEN
        LET col == e.meas[base]
            M == IF kref + 1 <= Len(col) THEN col[kref + 1] ELSE <<-1, 0>>
        IN IF M[1] = -1 THEN "accepted_root_residual_not_finite"
